@@ -577,6 +577,11 @@ func genScalarCall(t *rapid.T, mg *msgGen) *ScalarCase {
 		c.Missing = true // (not next to a per-call function named required: what that means for an absent entry is undocumented)
 	}
 	finishScalar(t, c)
+	if c.Carrier == "var" && !c.NoModel && !c.callFn("required") && rapid.IntRange(0, 2).Draw(t, "commonPrefix") == 1 {
+		// the rule list starts with a prefix that every such call takes from one shared slice
+		c.Common = rapid.SampledFrom([]string{"A", "B"}).Draw(t, "commonName")
+		c.Rules = append(append([]string(nil), commonRules[c.Common]...), c.Rules...)
+	}
 	if c.Carrier == "var" && rapid.IntRange(0, 7).Draw(t, "badSrc") == 5 {
 		// a call that Var turns down before it validates anything (what it was given stays with that call)
 		c.BadSrc, c.NoModel = rapid.SampledFrom([]string{"nil", "typednil", "struct", "map"}).Draw(t, "badSrcKind"), true
